@@ -307,7 +307,7 @@ func cmdVerify(args []string) int {
 	}
 	// solve (identical scripts are solved once)
 	var wg sync.WaitGroup
-	sem := make(chan struct{}, 10)
+	sem := make(chan struct{}, 8)
 	first := map[string]*Obligation{}
 	for _, o := range all {
 		if o.Trivial {
@@ -342,7 +342,7 @@ func cmdVerify(args []string) int {
 		}
 	}
 	sort.Slice(retry, func(i, j int) bool { return retry[i].Name < retry[j].Name })
-	maxRetry, attempts := 24, 2
+	maxRetry, attempts := 24, 3
 	if *tier == "thorough" {
 		maxRetry, attempts = 48, 3
 	}
@@ -360,7 +360,7 @@ func cmdVerify(args []string) int {
 	if len(retry) > 0 {
 		slow := NewSolver(filepath.Join(outDir, "smt", pf.ID+"-retry"), timeout*3, seed+1)
 		slow.QuickS = timeout
-		sem2 := make(chan struct{}, 4)
+		sem2 := make(chan struct{}, 3)
 		for _, o := range retry {
 			wg.Add(1)
 			sem2 <- struct{}{}
